@@ -336,3 +336,74 @@ Proof.
         rewrite <- repeat_cons. reflexivity.
   - rewrite isort_perm. apply Permutation_app_tail. symmetry. apply isort_perm.
 Qed.
+
+(* -------------------------------------- the same algebra for any total order *)
+Section GBest.
+  Context {A : Type}.
+  Variable leb : A -> A -> bool.
+  Hypothesis leb_total : forall a b, leb a b = true \/ leb b a = true.
+  Hypothesis leb_trans : forall a b c, leb a b = true -> leb b c = true -> leb a c = true.
+  Hypothesis leb_antisym : forall a b, leb a b = true -> leb b a = true -> a = b.
+  Notation GS := (StronglySorted (fun a b => leb a b = true)).
+
+  Definition gbest (k : nat) (l : list A) : list A := firstn k (isort leb l).
+  Definition ginsert_trunc (k : nat) (x : A) (l : list A) : list A := firstn k (insert leb x l).
+
+  Lemma gbest_cons k x l : gbest k (x :: l) = ginsert_trunc k x (gbest k l).
+  Proof. unfold gbest, ginsert_trunc. simpl. apply firstn_insert. Qed.
+  Lemma gbest_perm k a b : Permutation a b -> gbest k a = gbest k b.
+  Proof. intros. unfold gbest. f_equal. apply (isort_perm_eq leb leb_total leb_trans leb_antisym); auto. Qed.
+  Lemma gbest_app_fold k a b : gbest k (a ++ b) = fold_right (ginsert_trunc k) (gbest k b) a.
+  Proof. induction a; simpl; auto. rewrite gbest_cons. congruence. Qed.
+  Lemma gbest_id k l : GS l -> (length l <= k)%nat -> gbest k l = l.
+  Proof.
+    intros. unfold gbest. rewrite (isort_id leb leb_total leb_trans leb_antisym); auto.
+    apply firstn_all2; auto.
+  Qed.
+  Lemma gbest_sorted k l : GS (gbest k l).
+  Proof. apply sorted_firstn, (isort_sorted leb leb_total leb_trans). Qed.
+  Lemma gbest_length_le k l : (length (gbest k l) <= k)%nat.
+  Proof. unfold gbest. rewrite firstn_length. lia. Qed.
+  Lemma gbest_best k l : gbest k (gbest k l) = gbest k l.
+  Proof. apply gbest_id; auto using gbest_sorted, gbest_length_le. Qed.
+  Lemma gbest_absorb k a b : gbest k (gbest k a ++ b) = gbest k (a ++ b).
+  Proof.
+    rewrite (gbest_perm k (gbest k a ++ b) (b ++ gbest k a)) by apply Permutation_app_comm.
+    rewrite (gbest_perm k (a ++ b) (b ++ a)) by apply Permutation_app_comm.
+    rewrite !gbest_app_fold, gbest_best. reflexivity.
+  Qed.
+  Lemma ginsert_trunc_noop k x l :
+    GS l -> length l = k -> (forall y, In y l -> leb y x = true) -> ginsert_trunc k x l = l.
+  Proof.
+    intros Hs Hl Hx. unfold ginsert_trunc.
+    rewrite (insert_all_le leb leb_total leb_trans leb_antisym); auto.
+    rewrite firstn_app, <- Hl, Nat.sub_diag, firstn_all. simpl. apply app_nil_r.
+  Qed.
+  (* elements not below the largest kept one do not change a full result *)
+  Lemma gprune_ok k res c :
+    GS res -> length res = k ->
+    (forall x y, In x c -> In y res -> leb y x = true) ->
+    gbest k (res ++ c) = res.
+  Proof.
+    intros Hs Hl Hc.
+    rewrite (gbest_perm k (res ++ c) (c ++ res)) by apply Permutation_app_comm.
+    rewrite gbest_app_fold, gbest_id by (auto; lia).
+    induction c as [|x c IH]; simpl; auto.
+    rewrite IH by (intros; apply Hc; simpl; auto).
+    apply ginsert_trunc_noop; auto. intros; apply Hc; simpl; auto.
+  Qed.
+End GBest.
+
+(* the k smallest distances *)
+Definition dbest := gbest Dleb.
+Notation DS := (StronglySorted (fun a b => Dleb a b = true)).
+Lemma dbest_perm k a b : Permutation a b -> dbest k a = dbest k b.
+Proof. apply (gbest_perm Dleb Dleb_total Dleb_trans Dleb_antisym). Qed.
+Lemma dbest_absorb k a b : dbest k (dbest k a ++ b) = dbest k (a ++ b).
+Proof. apply (gbest_absorb Dleb Dleb_total Dleb_trans Dleb_antisym). Qed.
+Lemma dprune_ok k res c :
+  DS res -> length res = k -> (forall x y, In x c -> In y res -> Dleb y x = true) ->
+  dbest k (res ++ c) = res.
+Proof. apply (gprune_ok Dleb Dleb_total Dleb_trans Dleb_antisym). Qed.
+Lemma dists_best k l : map fst (best k l) = dbest k (map fst l).
+Proof. apply map_fst_best. Qed.
